@@ -57,6 +57,10 @@ CHECKS["C08"] = ("exploration", "4 C08",
     "runtime monitoring: expm1/log1p longdouble reference with forward-error bounds, icontract postconditions on em functions, relational driver for inverses/Jacobians/Snell/Fresnel identities",
     "Millions of (f, T) pairs with h f / k T in [1e-6, 600], multi-dimensional spectra, real and complex refractive indices.")
 
+CHECKS["C13"] = ("exploration", "4 C13",
+    "runtime monitoring: explicit-loop longdouble oracle for expand / collapse / concat on harness-built compact datasets and real collocate() results; structural post-condition (valid indices, every point used) on every compact dataset produced anywhere",
+    "Hundreds of compact datasets (one-to-many / many-to-one, shuffled pairs, channels, NaNs, >= 1000 pairs fallback path, both references, custom collapser) and lists of 1-5 datasets for concat.")
+
 NOT_YET = {}
 
 
